@@ -156,10 +156,13 @@ def run_case(c, rec, backends):
             rec.count(f"kernel_name_missing[{be}]")
             rec.note(f"kernel lookup failed: {e!r}")
             continue
-        xv, xb = guard.redzone(x)
-        yv, yb = guard.redzone(y) if cross else (None, None)
-        wv, wb = guard.redzone(w)
-        Qv, Qb = guard.redzone(Q) if Q is not None else (None, None)
+        # red zones: 1e200 (drags a huge value in) or, every third case, NaN (defeats a
+        # clamp/nan_to_num that would hide a finite poison)
+        pz = float("nan") if c["seed"][-1] % 3 == 1 else guard.POISON
+        xv, xb = guard.redzone(x, poison=pz)
+        yv, yb = guard.redzone(y, poison=pz) if cross else (None, None)
+        wv, wb = guard.redzone(w, poison=pz)
+        Qv, Qb = guard.redzone(Q, poison=pz) if Q is not None else (None, None)
         sv, sb = guard.redzone_starts(st, N)
         fps = [guard.fingerprint(a) for a in (xb, wb, sb)] + \
               [guard.fingerprint(yb) if cross else "", guard.fingerprint(Qb) if Q is not None else ""]
